@@ -537,8 +537,10 @@ class BasicContiguousVector<cntgs::Options<Option...>, Parameter...>
 
     void copy_assign(const BasicContiguousVector& other)
     {
-        destruct();
+        // become a valid empty vector first: the allocations below may throw
+        clear();
         deallocate_locator();
+        max_element_count_ = {};
         memory_ = other.memory_;
         ElementLocatorAndFixedSizes other_locator{other.locator_, other.memory_begin(),     other.max_element_count_,
                                                   memory_begin(), other.max_element_count_, get_allocator()};
